@@ -74,6 +74,9 @@ RawSph(proto, p) ==
 SameKindLimits(mn, mx) == IsSome(mn) /\ IsSome(mx) /\ mn.some[1] = mx.some[1] /\ mn.some[1] \in {0, 1, 3}
 RangeFor(rec, lmin, lmax) ==
     IF SameKindLimits(lmin, lmax) THEN [lo |-> lmin.some[2], hi |-> lmax.some[2]]
+    \* the range of the data type as real values: qmin/qmax are the images of the declared minimum and maximum, which a
+    \* scaled integer with a negative scale maps in reverse order
+    ELSE IF IsFin(rec.qmin) /\ IsFin(rec.qmax) /\ Val(rec.qmin) > Val(rec.qmax) THEN [lo |-> rec.qmax, hi |-> rec.qmin]
     ELSE [lo |-> rec.qmin, hi |-> rec.qmax]
 \* is the normalised output `out` (1/65536 grid) acceptable for input v (1/4 grid) and range rg
 Exact(rg) == IsFin(rg.lo) /\ IsFin(rg.hi) /\ Val(rg.hi) - Val(rg.lo) < 32768 /\ Val(rg.hi) >= Val(rg.lo)
